@@ -389,12 +389,15 @@ func (vc *VC) frameObligations(fn *ssa.Function, con *Contract, args []Val, entr
 		if strings.HasPrefix(m, "ghost ") {
 			continue
 		}
-		if strings.HasSuffix(m, "[*]") {
-			ex, err := parseSpecExpr(strings.TrimSuffix(m, "[*]"))
+		if strings.HasSuffix(m, "[*]") || strings.HasSuffix(m, "[*cap]") {
+			ex, err := parseSpecExpr(strings.TrimSuffix(strings.TrimSuffix(m, "[*]"), "[*cap]"))
 			if err != nil {
 				continue
 			}
 			v := arrayAsSlice(env.eval(ex))
+			if strings.HasSuffix(m, "[*cap]") && v.K == KSlice {
+				v.Sl[2] = v.Sl[3]
+			}
 			if v.K == KRef && v.T != nil {
 				if mt, ok := v.T.Underlying().(*types.Map); ok {
 					for hn := range vc.mapHeaps(mt) {
@@ -440,11 +443,17 @@ func (vc *VC) frameObligations(fn *ssa.Function, con *Contract, args []Val, entr
 		names = append(names, n)
 	}
 	sort.Strings(names)
+	wholeVars := map[string]bool{}
+	for _, m := range con.Modifies {
+		if strings.HasPrefix(m, "heap ") {
+			wholeVars[strings.TrimSpace(m[5:])] = true
+		}
+	}
 	for _, n := range names {
 		srt := vc.heapSorts[n]
 		h0 := vc.heapGet(entry, n, srt)
 		h1 := out.heap[n]
-		if h0 == h1 {
+		if h0 == h1 || wholeVars[n] {
 			continue
 		}
 		r := "r!q"
